@@ -91,21 +91,46 @@ Proof. exact reached_set_app. Qed.
 Print Assumptions C15_served_set_is_union.
 
 (* Add, update and delete events of every dependency kind run a sync function that regenerates the
-   resource -- except the deletion of an EndpointSlice, and an update that the handler's filter
+   resource -- except the deletion of an EndpointSlice (unless fixes/F19b.diff is applied), and an update that the handler's filter
    (hasServiceChanges for a Service, a spec comparison for the custom resources) does not let through. *)
 Theorem C15_event_reaches_partial :
   forall e cl r p k ky ns name o relevant,
     cluster_wf cl -> resource_wf r -> valid_name ns -> valid_name name ->
     In (p, (k, ky)) (consulted e cl r) -> refuted_pos e p k = false -> ky = key ns name ->
-    ~ (k = KEndpoints /\ o = Delete) ->
+    (k = KEndpoints -> o = Delete -> slice_delete_fix e = true) ->
     (o = Update -> relevant = true) ->
     event_reaches e cl k o relevant ns name r = true.
 Proof. exact event_reaches_partial. Qed.
 Print Assumptions C15_event_reaches_partial.
 
-(* F19b: syncEndpointSlices drops the deletion of an EndpointSlice, for every resource ... *)
+(* With fixes/F19a.diff and fixes/F19c.diff the planned statement holds in full: every consulted dependency, in
+   every position of every resource, is mapped back. *)
+Theorem C15_consulted_subset_findable_with_fixes :
+  forall e cl r p k ky ns name,
+    vsr_backup_fix e = true -> backup_ep_fix e = true ->
+    cluster_wf cl -> resource_wf r -> valid_name ns -> valid_name name ->
+    In (p, (k, ky)) (consulted e cl r) -> ky = key ns name ->
+    reaches e cl k ns name r = true.
+Proof. exact consulted_reachable_fixed. Qed.
+Print Assumptions C15_consulted_subset_findable_with_fixes.
+
+(* With fixes/F19b.diff as well, every add, delete and relevant update of every dependency reaches the resource
+   (the deletion of an EndpointSlice through the Service it belonged to, which exists because its endpoints
+   were consulted). *)
+Theorem C15_event_reaches_with_fixes :
+  forall e cl r p k ky ns name o relevant,
+    vsr_backup_fix e = true -> backup_ep_fix e = true -> slice_delete_fix e = true ->
+    cluster_wf cl -> resource_wf r -> valid_name ns -> valid_name name ->
+    In (p, (k, ky)) (consulted e cl r) -> ky = key ns name ->
+    (o = Update -> relevant = true) ->
+    event_reaches e cl k o relevant ns name r = true.
+Proof. exact event_reaches_fixed. Qed.
+Print Assumptions C15_event_reaches_with_fixes.
+
+(* F19b: without fixes/F19b.diff syncEndpointSlices drops the deletion of an EndpointSlice, for every resource ... *)
 Theorem C15_endpointslice_delete_refuted :
-  forall e cl relevant ns name r, event_reaches e cl KEndpoints Delete relevant ns name r = false.
+  forall e cl relevant ns name r,
+    slice_delete_fix e = false -> event_reaches e cl KEndpoints Delete relevant ns name r = false.
 Proof. exact endpointslice_delete_refuted. Qed.
 Print Assumptions C15_endpointslice_delete_refuted.
 
@@ -120,7 +145,7 @@ Print Assumptions C15_endpointslice_delete_witness.
 
 (* Non-vacuity: a VirtualServer in ns1 whose route names a policy of ns2 (cross-namespace) that names a
    JWT secret; a VirtualServerRoute in ns2 with a WAF policy on a subroute; DoS at spec and route level. *)
-Definition ex_env : env := {| plus := true; ap_enabled := true; dos_enabled := true; vsr_backup_fix := false |}.
+Definition ex_env : env := {| plus := true; ap_enabled := true; dos_enabled := true; vsr_backup_fix := false; backup_ep_fix := false; slice_delete_fix := false |}.
 Definition ex_pol_jwt : policy :=
   {| p_ns := "ns2"; p_name := "jwt"; p_valid := true; p_class_ok := true; p_jwt := Some ("jwk", false); p_basic := None;
      p_ingress_mtls := None; p_egress_mtls := None; p_oidc := None; p_apikey := None; p_waf := None |}.
